@@ -127,7 +127,7 @@ func c14Program(c *core.Ctx) c14Prog {
 		body.WriteString("while true\n" + []string{"    // wait for events\n", "\n", "    // a\n\n"}[r.Intn(3)] + "end\n")
 	case 5:
 		p.kind = "idle-for"
-		body.WriteString("for range 1000000000\n    // busy wait\nend\n")
+		body.WriteString("for range 300000\n    // busy wait\nend\n")
 	case 6:
 		p.kind = "idle-in-function"
 		funcs.WriteString("func idle\n    while true\n        // wait\n    end\nend\n")
